@@ -7,13 +7,15 @@
 // by a byte sorting below '.', by ".0" and by ".<20 digits>".
 //
 // Three drivers of the same histories:
-//   helper   MVCCHelper over memdb (kv lists applied the way the repository tests do)
-//   iter     MVCCIter over memdb (DelMVCC additionally reads the previous version)
-//   layered  the production shape of StateDB.Get with MVCC: a fresh common/db LocalDB over the
-//            persistent database per block, SimpleMVCC on top of it through an adapter that turns an
-//            empty list into ErrNotFound exactly as executor.LocalDB.List does; the block's kv list is
-//            Set into the LocalDB (deletions as empty values = tombstones), every GetV is checked on
-//            that merged view, then the kv list is flushed to the database.
+//
+//	helper   MVCCHelper over memdb (kv lists applied the way the repository tests do)
+//	iter     MVCCIter over memdb (DelMVCC additionally reads the previous version)
+//	layered  the production shape of StateDB.Get with MVCC: a fresh common/db LocalDB over the
+//	         persistent database per block, SimpleMVCC on top of it through an adapter that turns an
+//	         empty list into ErrNotFound exactly as executor.LocalDB.List does; the block's kv list is
+//	         Set into the LocalDB (deletions as empty values = tombstones), every GetV is checked on
+//	         that merged view, then the kv list is flushed to the database.
+//
 // plus a flat probe of SimpleMVCC directly over common/db LocalDB (the composition used by the
 // repository's TestSimpleMVCCLocalDB) for the miss path.
 package main
@@ -26,6 +28,7 @@ import (
 	"sort"
 	"strings"
 	"sync"
+	"sync/atomic"
 
 	dbm "github.com/33cn/chain33/common/db"
 	clog "github.com/33cn/chain33/common/log"
@@ -269,6 +272,7 @@ func relOf(x, c string) string {
 }
 
 var outcomesSeen sync.Map
+var sampled int64
 
 // outcome records an outcome class (lock-free once it has been seen in this process).
 func outcome(r *vx.Run, class string) {
@@ -641,6 +645,16 @@ func mkHarness(r *vx.Run, kind, name string, depth, maxV, workers int, level int
 		return h.report(s, fs)
 	}
 	q.Check = func(s *sys) string {
+		if len(s.hist) >= 3 && atomic.AddInt64(&sampled, 1) <= 3 {
+			reads := map[string]string{}
+			get := s.reader()
+			for _, k := range keys {
+				for v := 0; v <= len(s.m.vers); v++ {
+					reads[fmt.Sprintf("GetV(%q,%d)", k, v)] = resOf(get, k, v)
+				}
+			}
+			r.Sample(map[string]interface{}{"harness": name, "history": h.names(s.hist), "versions": s.m.vers, "reads": reads})
+		}
 		return h.report(s, s.verify(r, s.reader(), "", s.mem))
 	}
 	q.Canon = func(s *sys) string {
